@@ -646,6 +646,7 @@ func (r *Run) doUpdateSub(i int) *Violation {
 	if res.err == nil && ms != nil {
 		ttlChanged := cfg.TTL != ms.Cfg.TTL || (len(paths) > 0 && paths[0] == "expiration_policy")
 		ms.Cfg = cfg
+		r.M.ConfigChanged(ms)
 		if ttlChanged {
 			ms.ActLo, ms.ActHi = res.t0, res.t1
 		}
@@ -1278,6 +1279,7 @@ func (r *Run) doSetDelay(i int) *Violation {
 		return viol("C14", "delay_injector_status", "PUT /delays/%s returned %d", name, st)
 	}
 	ms.Cfg.Delay = d
+	r.M.ConfigChanged(ms)
 	return nil
 }
 
